@@ -36,7 +36,7 @@ CHECKS = {
     'C04': ('W', "Writer histories 'a updates; crash after any event of the next update (any subset of its record words); restart (version store); b updates' against two concurrent "
                  "reader calls and one call ordered after everything: only complete records, in publication order, and the restarted writer's publication is seen; plus, from the MIR of "
                  "ShmHeader::is_valid / ShmReader::new / ShmWriter::new: every header a crash can leave in a published segment is accepted, so the segment is not wiped. "
-                 "File-system clauses (inode identity, truncate/create semantics) are NOT covered.", NOTE_W, TECH_W),
+                 "A start-up cut short inside wipe() (any prefix of its file writes, over any unusable prior file, with or without truncation as the code asks) must not leave a file clients can open. Other file-system clauses (inode identity, rename) are NOT covered.", NOTE_W, TECH_W),
     'C05': ('M', "All inputs of the stated domain (no unrolling bound: the code is loop-free): for every return path of ClockErrorBound::now() the solver proves symmetry, ordering, "
                  "normalisation and the growth law (to 1 ns + 2^-49 relative), plus the 2-safety claim that the half-width is monotone in age.", NOTE_NOW, TECH_M),
     'C06': ('M', "All inputs of the stated domain: the status returned by now() is proved, per return path, to obey the four decay/pass-through clauses for every ordering of the monotonic "
@@ -48,7 +48,7 @@ CHECKS = {
                  "String/str views, trim, parse::<int>, from_utf8, range slicing; any other std call there ends INCONCLUSIVE.", TECH_M),
     'C08': ('M', "All histories of 1..3 (quick) / 1..4 (thorough) poll outcomes from a fresh daemon, each outcome with arbitrary (bound, class, PHC term, as_of), through the real ShmUpdater and the "
                  "status FSM's vtable: after every step exactly one record is published and it carries the latest synchronised measurement, void_after = as_of+1000 s, the configured drift, and "
-                 "(once synchronised) the class of the latest outcome; plus one inductive step from an arbitrary updater state for clauses (a)-(c).", NOTE_D, TECH_M),
+                 "(once synchronised) the class of the latest outcome; plus one inductive step from an arbitrary updater state for clauses (a)-(c); and the writer thread's message loop hands every outcome message it takes from its mailbox to the updater - one call per message per turn (native: the same outcomes queued as messages publish the same records as direct calls).", NOTE_D, TECH_M),
     'C09': ('M', "Same symbolic histories as C08: in every history prefix without a synchronised report the published status is Unknown; plus, with the real classifier in the loop, a fresh updater "
                  "processing its first report (arbitrary wire values, update interval of either sign) publishes a status other than Unknown only if that report is synchronised and fresh by the documented rules.", NOTE_D, TECH_M),
     'C10': ('M', "All 65536 leap values, every finite update interval in [-2^40, 2^40] s (for a negative interval the threshold is 0), every reference-time age of either sign: the class returned by "
